@@ -18,18 +18,27 @@ P = {
                   '"unvested never delegated" survive conversion to a plain account, conversion back (ApplyVestingSchedule: DelegatedFree := '
                   'bonded + unbonding), merges, funder updates and clawbacks by the current funder, over all histories (the K11 exclusion '
                   'unchanged); with the guard computed from the bank-facing LockedCoins instead (locked - min(delegated, lockedUpVested)) the '
-                  'history [delegate all; convert; undelegate; payout; send] empties an account whose schedule still locks everything (refuted)',
+                  'history [delegate all; convert; undelegate; payout; send] empties an account whose schedule still locks everything (refuted). '
+                  'MsgConvertIntoVestingAccount{Stake} is an operation of the model: the schedule part (conversion of a plain account / merge by the '
+                  'funder), then delegateVestedCoins = stakingKeeper.Delegate called DIRECTLY (no validateDelegationAmountNotUnvested on this path: '
+                  'only balance >= amount, then TrackDelegation) with the vested part of the grant carried by the message (ReadSchedule over the '
+                  'message\'s own periods); proved: whenever no unvested coin was delegated before, a successful stake message is the schedule message '
+                  'followed by an ordinary delegation that Haqq\'s guard accepts (the missing guard is implied), so "unvested never delegated" and '
+                  '"balance >= locked" (K11 exclusion unchanged) hold over all histories containing it; staking the account-wide vested amount of '
+                  'the merged schedule instead delegates freshly deposited unvested coins once earlier vested coins were spent (refuted with witness: '
+                  'balance 250 < unvested 750, the funder\'s clawback fails)',
     'level_note': 'trusted: Coq kernel + vm_compute; the hand-written single-denomination model (tied to /repo only by the sampled correspondence '
                   'run, two denominations side by side); the merged (DisjunctPeriods) and capped (ConjunctPeriods) schedules are inputs of the '
                   'model, checked for well-formedness and monotonicity at use (their exact construction is property C09); SDK staking shares/'
                   'tokens arithmetic and unbonding queue enter as observed figures; go-ethereum interpreter, authz dispatch, gov/dao/erc20 '
                   'keepers are only driven, not modelled; IBC transfer is not driven (no channel can be mocked cheaply); for a converted '
                   'account the model keeps the discarded vesting record as a ghost (the code has dropped it); MsgConvertIntoVestingAccount '
-                  '{Stake:true} is not driven; no axioms',
+                  '{Stake:true}: the merged schedule is an input as for every merge, the model checks at use that at the block time it has vested at '
+                  'least old vested + vested part of the grant (C09: union of events); no axioms',
     'technique': 'Coq proof (invariants by induction over operation histories, closed-form of the locked amount) + differential '
                  'correspondence and property oracle with an independent big.Int reference of the schedule',
     'drivers': [
-        {'name': 'locked', 'n': {'quick': 300, 'thorough': 6000}, 'shrink_field': 'ops', 'batch': 1500},
+        {'name': 'locked', 'n': {'quick': 400, 'thorough': 6000}, 'shrink_field': 'ops', 'batch': 1500},
     ],
     'coq_header': 'From HV Require Import Vesting.LockModel.\nFrom Coq Require Import ZArith NArith List.\nImport ListNotations.',
     'lists': {'cases': {'type': 'lk_case', 'check': 'lk_mismatches', 'shard': 15}},
@@ -42,12 +51,24 @@ P = {
             'ERC20 route, cosmos fee deduction decorator, eth fee deduction) at spendable-1/0/+1/half/one, delegations (MsgDelegate, authz exec, '
             'staking precompile) at delegatable-1/0/+1, undelegate, staking end-block (unbonding completion), time advance, Slash, credit, '
             'grant merge (by the funder / a foreign signer), clawback (current / stale funder), MsgConvertVestingAccount, '
-            'MsgConvertIntoVestingAccount (plain -> vesting, merge, wrong signer), MsgUpdateVestingFunder; 35 % of the cases are '
+            'MsgConvertIntoVestingAccount (plain -> vesting, merge, wrong signer; with Stake in half of them), MsgUpdateVestingFunder; '
+            'the account may also be created by MsgConvertIntoVestingAccount on an address without account, and by the converting message '
+            'with Stake; 25 % of the cases are stake histories: first grant started in the past, block time steered into / behind its '
+            'schedule, the coins earlier grants have vested left alone / spent / half spent / delegated / delegated and unbonding / unbonded '
+            'and spent, then MsgConvertIntoVestingAccount with Merge (88 %) and Stake (90 %) carrying a grant that is not / partly / fully '
+            'vested at the block time with a deposit of the same or a larger size, then the funder\'s clawback, spends at spendable / '
+            'spendable+1, delegations at delegatable+1, undelegation, unbonding maturity, conversion to a plain account and a stake message '
+            'onto it (with / without delegations), second round on the merged schedule; 30 % of the cases are '
             'account-type histories: block time steered before / at / between / after the vesting end and the lock-up end of the schedule in '
             'the input, none / half / all-but-one / all of the delegatable amount delegated, optional undelegation in flight, clawback, '
             'merged grant, slash, funder change, then MsgConvertVestingAccount, undelegation, staking end-block after the unbonding time, '
             'spends at spendable / spendable+1 over the spend paths, delegations, conversion back into a vesting account, second round. '
-            'Oracle: balance >= max(original - unlockedVested - tracked, unvested) after every successful non-delegation transaction; a '
+            'Oracle: balance >= max(original - unlockedVested - tracked, unvested) after every successful non-delegation transaction (stake '
+            'messages and the state left by the creating message included); after EVERY successful operation (delegations over the three '
+            'paths, stake messages, merges, clawbacks, payouts, time, slashes) the unvested amount of the stored schedule (reference '
+            'evaluation) is still in the bank balance, i.e. nothing bonded or unbonding is an unvested coin, whoever requested the '
+            'delegation; a refused stake message (nothing of this grant vested, no merge flag, foreign signer) is replayed on the model '
+            'with the schedule the message would have produced and must be refused there too; a '
             'successful MsgConvertVestingAccount at block time t requires original - unlocked(t) = 0 and original - vested(t) = 0 in both '
             'denominations (reference evaluation of the stored schedule); if it succeeds otherwise the discarded schedule stays an '
             'obligation (tracked delegation continued by the SDK rules) that every later transaction is checked against, reported '
